@@ -500,7 +500,7 @@ Faithful    == \A i \in Req : pc[i] = "Remove" /\ ps.ph[i] = "answered" /\ i \in
 \* safety forms of DrainSafe (they make the variants' counterexamples short; Answered below is the property itself):
 \* the loop never returns while a request waits unanswered, and a drain releases every watched waiting request
 NotStranded   == ~(pc["loop"] = "Done" /\ \E i \in Req : pc[i] = "Wait" /\ wg[i] = 1)
-DrainReleases == [][(pc["loop"] = "Tick" /\ cancelled /\ inDrain') => \A i \in watch' : state'[i] # "enqueued"]_vars
+DrainReleases == [][(Tick /\ cancelled) => \A i \in watch' : state'[i] # "enqueued"]_vars
 
 \* model-level sanity
 TypeOK == /\ count \in 0..(Cardinality(Req))
